@@ -9,7 +9,9 @@ import (
 	"math/rand"
 	"os"
 	"path/filepath"
+	"reflect"
 	"regexp"
+	"sort"
 	"strconv"
 	"strings"
 	"time"
@@ -29,6 +31,17 @@ type plainStruct struct {
 }
 
 func (p plainStruct) Method() string { return "m" }
+
+// methods of every shape: only the first kind (and a value with a nil error) is a property
+func (p plainStruct) Pair() (string, int)       { return "p", 1 }
+func (p plainStruct) Checked() (string, error)  { return "c", nil }
+func (p plainStruct) Nothing()                  {}
+func (p plainStruct) WithArg(i int) string      { return "a" }
+func (p plainStruct) Triple() (int, int, error) { return 1, 2, nil }
+func (p *plainStruct) OnPointer() []int         { return p.C }
+func (p plainStruct) Self() plainStruct         { return p }
+func (p plainStruct) NilMap() map[string]any    { return nil }
+func (p plainStruct) Func() func() int          { return func() int { return 1 } }
 
 // weirdEnv builds bindings of every representation named in C01.
 func weirdEnv() map[string]any {
@@ -62,6 +75,38 @@ var fuzzFilterNames = []string{"compact", "reverse", "first", "last", "uniq", "a
 	"strip", "lstrip", "rstrip", "url_encode", "url_decode", "json", "inspect", "type", "default", "concat", "join", "map", "sort", "sort_natural", "modulo", "minus",
 	"plus", "times", "divided_by", "round", "append", "prepend", "remove", "remove_first", "split", "date", "upcase", "downcase", "capitalize", "escape_once", "replace",
 	"replace_first", "slice", "truncate", "truncatewords", "nosuch"}
+
+// every exported method and field of the struct-like bindings (structs, pointers to structs, times), as a property
+func init() {
+	env := weirdEnv()
+	names := make([]string, 0, len(env))
+	for k := range env {
+		names = append(names, k)
+	}
+	sort.Strings(names)
+	for _, k := range names {
+		v := env[k]
+		if v == nil {
+			continue
+		}
+		t := reflect.TypeOf(v)
+		st := t
+		if st.Kind() == reflect.Ptr {
+			st = st.Elem()
+		}
+		if st.Kind() != reflect.Struct {
+			continue
+		}
+		for i := 0; i < t.NumMethod(); i++ {
+			fuzzNames = append(fuzzNames, k+"."+t.Method(i).Name)
+		}
+		for i := 0; i < st.NumField(); i++ {
+			if st.Field(i).IsExported() {
+				fuzzNames = append(fuzzNames, k+"."+st.Field(i).Name)
+			}
+		}
+	}
+}
 
 func fuzzOperand(r *rand.Rand) string {
 	if r.Intn(3) == 0 {
